@@ -19,7 +19,7 @@ C26 — sticky sessions are never used concurrently with or after close: theorem
 * `C26_accepts_sound`              what the driver's `accepts` accepts ends in a reachable state
 -/
 namespace VgiVerif.C26
-open VgiVerif.Sched VgiVerif.Gen.Sticky
+open VgiVerif.Sched VgiVerif.Gen.C26
 
 /-- the structural facts the model relies on, as extracted from the source -/
 theorem C26_shape :
